@@ -45,12 +45,22 @@ def confirm(d, target="/tmp/seedcheck_target"):
                 demo_files.append(rel)
                 os.makedirs(os.path.dirname(os.path.join(wt, rel)) or wt, exist_ok=True)
                 shutil.copyfile(os.path.join(root, f), os.path.join(wt, rel))
+                # demonstrations written in an agent's worktree may name it: point them at the scratch worktree
+                orig_wt = d.split("/out/")[0]
+                try:
+                    txt = open(os.path.join(wt, rel), encoding="utf-8").read()
+                    if orig_wt in txt:
+                        open(os.path.join(wt, rel), "w", encoding="utf-8").write(txt.replace(orig_wt + "/target", target).replace(orig_wt, wt))
+                except UnicodeDecodeError:
+                    pass
         res["demo_files"] = demo_files
-        py_demos = [f for f in demo_files if f.endswith(".py")]
+        py_demos = [f for f in demo_files if os.path.basename(f).startswith("run") and f.endswith((".py", ".sh"))]
         def run_py():
             outs = []
             for f in py_demos:
-                rc, o = sh(["python3", f], cwd=wt, env=dict(ENV, CARGO_TARGET_DIR=target), timeout=1800)
+                env = dict(ENV, CARGO_TARGET_DIR=target, CHOKAN_ROOT=wt, PORT=str(20000 + os.getpid() % 20000))
+                cmd = ["python3", f] if f.endswith(".py") else ["sh", f]
+                rc, o = sh(cmd, cwd=wt, env=env, timeout=1800)
                 outs.append((f, rc, o[-1500:]))
             return outs
         p0, f0, ce0, out0 = run_tests(wt, target)
